@@ -108,6 +108,8 @@ def _jobs(tier):
         add("dbg", "direct", "handle", "3x1", INF, parts=3)
         for s in storages:
             for al in ("adapter", "handle"):
+                if al == "adapter" and s == "direct":
+                    continue  # see adapter_maker in the harness
                 add("dbg", s, al, "2x2", INF)
                 add("dbg", s, al, "2x1", INF)
         # second Mutex type: an empty class locking a process-wide mutex
@@ -152,6 +154,8 @@ def _jobs(tier):
         for cfg in ("dbg", "rel"):
             for s in storages:
                 for al in ("adapter", "handle"):
+                    if al == "adapter" and s == "direct":
+                        continue
                     add(cfg, s, al, "3x1", INF, parts=3)
                     add(cfg, s, al, "2x3", INF)
                     add(cfg, s, al, "2x2", INF)
@@ -211,13 +215,18 @@ def check(prop, tier, only):
                 tsan_state = "unavailable: ThreadSanitizer build failed: " + str(e)[-300:]
         else:
             tsan_state = "filtered out"
-    budget = 150 if tier == "quick" else 1100  # one global deadline for all jobs of the run (exit 0, exhaustive:false when hit)
+    # one global deadline for all jobs of the run (exit 0, exhaustive:false when hit); the clock starts AFTER the builds:
+    # on an overloaded machine compiling alone once took longer than the quick budget, and every job then stopped before
+    # its first program (nothing checked, vacuity errors)
+    budget = 150 if tier == "quick" else 1100
+    t_run = time.time()
     argv_jobs = [(j["name"], [exes[j["cfg"] if j["h"] == H else ("ll", j["cfg"])]] + shlex.split(j["args"])
-                  + ["--tier", tier, "--time_s", str(budget), "--deadline", str(int(t0 + budget))]) for j in jobs]
+                  + ["--tier", tier, "--time_s", str(budget), "--deadline", str(int(t_run + budget))]) for j in jobs]
     if tsan_exe:
         os.environ.setdefault("TSAN_OPTIONS", "exitcode=0")
-        jobs.append(checks.J(H, "dbg", "--tsan", name="tsan-side-run[dbg]"))
-        argv_jobs.append(("tsan-side-run[dbg]", [tsan_exe, "--tsan", "--tier", tier, "--deadline", str(int(t0 + budget))]))
+        # first in the list: it is one sequential process and would otherwise be the tail of the run
+        jobs.insert(0, checks.J(H, "dbg", "--tsan", name="tsan-side-run[dbg]"))
+        argv_jobs.insert(0, ("tsan-side-run[dbg]", [tsan_exe, "--tsan", "--tier", tier, "--deadline", str(int(t_run + budget))]))
     results = vlib.run_jobs(argv_jobs, timeout=budget + 300)
 
     states = trans = traces = 0
